@@ -168,20 +168,24 @@ def r3(ctx):
     none = ('agg', 'core::option::Option', 'None', ())
     some = ('agg', 'core::option::Option', 'Some', (('0', SQ(lowest)),))
     cond = ('bin', 'Eq', word, INT(0, 'u64'))
-    ret_ok = match(('ite', cond, ((0, some), ('otherwise', none))), r) is not None
-    if ret_ok:
+    verdict, why = decide_equal(ctx, [('ite', cond, ((0, some), ('otherwise', none)))], r)
+    if verdict == 'ok':
         ctx.ok(R, 'next() is None iff the word is 0, else Some(lowest set bit)', w)
+    elif verdict == 'violation':
+        ctx.violation(R, key + ':ret', 'expected `if w == 0 {None} else {Some(lowest)}`, got %s (%s)' % (sh(r), why), w)
     else:
-        ctx.violation(R, key + ':ret', 'expected `if w == 0 {None} else {Some(lowest)}`, got ' + sh(r), w)
+        ctx.inconclusive(R, 'next(): return value not recognised (%s): %s' % (why, sh(r)))
     base = ('mem', ('p', 1))
     cleared = [('upd', base, '0', ('bin', 'BitXor', word, ('bin', 'Shl', INT(1, 'u64'), lowest))),
                ('upd', base, '0', ('bin', 'BitAnd', word, ('bin', 'Sub', word, INT(1, 'u64')))),
                ('upd', base, '0', ('bin', 'BitAnd', word, ('un', 'Not', ('bin', 'Shl', INT(1, 'u64'), lowest))))]
-    st_ok = any(match(('ite', cond, ((0, c), ('otherwise', base))), fin) is not None for c in cleared)
-    if st_ok:
+    verdict, why = decide_equal(ctx, [('ite', cond, ((0, c), ('otherwise', base))) for c in cleared], fin)
+    if verdict == 'ok':
         ctx.ok(R, 'next() clears exactly the bit it returned', w)
+    elif verdict == 'violation':
+        ctx.violation(R, key + ':state', 'expected the returned bit (and only it) to be cleared, got %s (%s)' % (sh(fin), why), w)
     else:
-        ctx.violation(R, key + ':state', 'expected the returned bit (and only it) to be cleared, got ' + sh(fin), w)
+        ctx.inconclusive(R, 'next(): state update not recognised (%s): %s' % (why, sh(fin)))
 
 
 def run(ctx):
